@@ -1,4 +1,5 @@
 import FstVerif.Proofs.Merge
+import FstVerif.Proofs.Glue
 import FstVerif.Proofs.Sched
 /-
 C19 — unsorted CLI builds are independent of batching, file-descriptor limit
@@ -77,5 +78,18 @@ theorem C19_threads (m : MergeMode) (batchSize fd : Nat) (hfd : 2 ≤ fd) (threa
     (choice : Nat → Nat → List Sched.Ev) (rows : List (Key × Nat)) :
     mergeAll m batchSize fd (Sched.schedOf threads choice) rows = some (Spec.merged m rows) :=
   Sched.C19_threads m batchSize fd hfd threads choice rows
+
+
+/-! ### what the input files mean as rows (Model/Glue.lean `lineKey`, `fileRows`) -/
+
+/-- one CR before the line feed belongs to the terminator; an unterminated last line is taken as it is -/
+theorem C19_line_key (c : Key) :
+    lineKey (c ++ [13]) true = c ∧ lineKey (c ++ [13, 13]) true = c ++ [13] ∧ lineKey c false = c ∧
+    (c.getLast? ≠ some 13 → lineKey c true = c) :=
+  ⟨Glue.lineKey_cr c, Glue.lineKey_cr_cr c, Glue.lineKey_unterminated c, fun h => Glue.lineKey_no_cr c true h⟩
+
+/-- a file listed twice is read twice -/
+theorem C19_file_twice (b : Bool) (f : List (Key × Nat) × Bool) :
+    fileRows b [f, f] = fileRows b [f] ++ fileRows b [f] := Glue.fileRows_twice b f
 
 end Fst.Props
